@@ -94,4 +94,15 @@ def intF32 (n : Int) : Nat :=
 
 def joinSp (l : List String) : String := " ".intercalate l
 
+/-- consecutive records grouped into chromosome runs, in order of appearance -/
+def groupRuns {α} (recs : List (String × α)) : List (String × List α) :=
+  let rec go : List (String × α) → Option (String × List α) → List (String × List α)
+    | [], none => []
+    | [], some (c, acc) => [(c, acc.reverse)]
+    | (c, x) :: rest, none => go rest (some (c, [x]))
+    | (c, x) :: rest, some (c', acc) =>
+      if c == c' then go rest (some (c', x :: acc)) else (c', acc.reverse) :: go rest (some (c, [x]))
+  go recs none
+
+
 end Drv
